@@ -614,6 +614,333 @@ def oracle(chk, quick):
                          + ", ".join("%s %.2g" % kv for kv in sorted(worst.items())))
 
 
+# --------------------------------------------------------------------------- round 5: generator audit
+R5_DTYPES = ["int8", "int16", "uint32", "int64", "uint64", ">f8", ">f4", ">u2", ">i4", "<u2", "float32", "longdouble"]
+R5_MAX = {"int8": 127, "int16": 32767, "uint32": 2 ** 32 - 1, "int64": 2 ** 40, "uint64": 2 ** 40, ">u2": 65535, "<u2": 65535,
+          ">i4": 2 ** 31 - 1}
+R5_TOL32 = 1e-4       # binary32 pixel values against the same values in binary64: observed <= 2.4e-7 (quick seeds 0-11, thorough seed 0)
+NONDYADIC_THRESHOLDS = [0.1, 0.3, 0.7, 0.9, 0.99, 1e-3, 1.0 / 3]
+
+
+def oracle_round5(chk, quick):
+    """input classes no earlier section produces (generator audit): frames with more than 2^8 / 2^16 pixels along an axis, stacks
+    deeper than 2^8 / 2^10 frames whose frames differ in brightness by 1e6, rank-5 stacks, further array dtypes (signed narrow
+    integers, 32/64-bit unsigned, big-endian FITS types) with pixel values up to the dtype's maximum, thresholds that are no binary
+    fractions and thresholds / paddings given as NumPy scalars or 0-d arrays, positional vs keyword spelling, the package-level
+    names, read-only and broadcast (zero-stride) arrays"""
+    import aotools
+    import aotools.image_processing
+    C = _C()
+    rng = chk.rng
+    nprng = numpy.random.default_rng(rng.getrandbits(32))
+    worst = {}
+
+    def bad(key, what, **rep):
+        chk.fail(key, what, rep)
+
+    def near(a, b, tol=TOL, kind=None):
+        if a is None or b is None or a.shape != b.shape:
+            return False
+        with numpy.errstate(invalid="ignore"):
+            d = numpy.abs(a - b) / (1 + numpy.abs(b))
+        d = numpy.where(numpy.isnan(a) & numpy.isnan(b), 0.0, d)
+        ok = bool(numpy.all(d <= tol))
+        if ok and kind and d.size:
+            worst[kind] = max(worst.get(kind, 0.0), float(d.max()))
+        return ok
+
+    # ---------------- A. long axes: a single bright pixel / a small blob beyond index 2^8 and 2^16, moved by a long shift
+    shapes = [(1, 70000), (70000, 1), (300, 260), (2, 2 ** 17 + 3), (513, 129)] if quick else \
+        [(1, 70000), (70000, 1), (300, 260), (2, 2 ** 17 + 3), (513, 129), (1024, 1024), (3, 2 ** 18 + 1), (257, 256), (66000, 3)]
+    for (ny, nx) in shapes:
+        dt = rng.choice(DTYPES)
+        y0, x0 = rng.randrange(ny // 2, ny), rng.randrange(nx // 2, nx)          # in the far half: indices beyond 2^8 / 2^16
+        v = rng.choice([1, 3, 31, 200, INT_MAX[dt]]) if dt in INT_MAX else float(rng.choice(SINGLE_VALUES))
+        img = numpy.zeros((ny, nx), dtype=dt)
+        img[y0, x0] = v
+        want = numpy.array([float(x0), float(y0)])
+        chk.oracle_cases += 1
+        chk.count("oracle:single:large")
+        chk.case(("single-large", ny, nx, y0, x0, v, dt))
+        t = rng.choice(THRESHOLDS)
+        k = rng.randint(2, 50)
+        f = k / float(ny * nx)
+        if int(round(f * nx * ny)) != k:
+            f, k = 2.5 / (ny * nx), 2 if int(round(2.5 / (ny * nx) * nx * ny)) == 2 else None
+        for lead in ((), (2,)):
+            a = numpy.broadcast_to(img, lead + img.shape).copy()
+            w = want.reshape((2,) + (1,) * len(lead)) * numpy.ones((2,) + lead)
+            r, e = call(C.centre_of_gravity, a, threshold=t)
+            if not near(r, w, kind="single-large"):
+                bad("single:centre_of_gravity:large", "centre_of_gravity(single pixel %r at (y=%d,x=%d) of a %dx%d %s frame, threshold=%r, lead %s) = %s, expected (%d,%d)"
+                    % (v, y0, x0, ny, nx, dt, t, lead, e or r.ravel().tolist(), x0, y0), shape=[ny, nx], y0=y0, x0=x0, v=v, threshold=t, lead=lead, dtype=dt)
+            if k:
+                r, e = call(C.brightest_pixel, a, f)
+                if not near(r, w, kind="single-large"):
+                    bad("single:brightest_pixel:large", "brightest_pixel(single pixel %r at (y=%d,x=%d) of a %dx%d %s frame, %d px, lead %s) = %s, expected (%d,%d)"
+                        % (v, y0, x0, ny, nx, dt, k, lead, e or r.ravel().tolist(), x0, y0), shape=[ny, nx], y0=y0, x0=x0, v=v, fraction=f, lead=lead, dtype=dt)
+        # a 3x3 blob moved by a long shift
+        by, bx = min(3, ny), min(3, nx)
+        blob = nprng.integers(1, 32, size=(by, bx))
+        p0y, p0x = rng.randint(0, max(0, ny // 4 - by)), rng.randint(0, max(0, nx // 4 - bx))
+        ky, kx = rng.randint(0, ny - by - p0y), rng.randint(0, nx - bx - p0x)
+        a = numpy.zeros((ny, nx), dtype=dt)
+        b = numpy.zeros((ny, nx), dtype=dt)
+        a[p0y:p0y + by, p0x:p0x + bx] = blob
+        b[p0y + ky:p0y + ky + by, p0x + kx:p0x + kx + bx] = blob
+        r0, e0 = call(C.centre_of_gravity, a, threshold=t)
+        r1, e1 = call(C.centre_of_gravity, b, threshold=t)
+        if r0 is None or r1 is None or not numpy.all(numpy.isfinite(r0)) or not near(r1, r0 + numpy.array([float(kx), float(ky)]), kind="shift-large"):
+            bad("shift:centre_of_gravity:large", "centre_of_gravity: a %dx%d blob shifted by (dy=%d,dx=%d) inside a %dx%d %s frame moves the centroid from %s to %s (threshold %r)"
+                % (by, bx, ky, kx, ny, nx, dt, e0 or r0.tolist(), e1 or r1.tolist(), t), shape=[ny, nx], blob=blob.tolist(), at=[p0y, p0x], shift=[ky, kx], threshold=t, dtype=dt)
+
+    # ---------------- B. deep stacks (more frames than 2^8 / 2^10) whose frames differ in brightness, rank-5 stacks
+    for lead in ([(300,), (1030,), (2, 1, 3), (3, 2, 2)] if quick else [(300,), (1030,), (70000,), (2, 1, 3), (3, 2, 2), (260, 2), (1, 1, 1, 2)]):
+        ny, nx = (rng.randint(2, 6), rng.randint(2, 6)) if lead != (70000,) else (2, 3)
+        t = rng.choice(THRESHOLDS[1:] + NONDYADIC_THRESHOLDS)
+        f, k = bp_fraction(rng, ny * nx)
+        nf = int(numpy.prod(lead))
+        st = nprng.integers(0, 32, size=lead + (ny, nx)).astype(float)
+        st[..., 0, 0] = 31.0                                   # a unique brightest pixel: brightest-pixel centroids are defined
+        st[..., ny - 1, nx - 1] = numpy.minimum(st[..., ny - 1, nx - 1], 30.0)
+        srt = numpy.sort(st.reshape(lead + (-1,)))
+        st[srt[..., -k] >= 31.0] *= 0.0
+        st[..., 0, 0] = 31.0
+        if not bp_defined(st, k):
+            k, f = 2, 2.0 / (ny * nx)
+            if int(round(f * nx * ny)) != 2 or not bp_defined(st, 2):
+                continue
+        gain = 10.0 ** nprng.integers(-3, 4, size=lead)          # frame brightness 1e-3 … 1e3 (a scintillating / variable source)
+        st = st * gain[..., None, None]
+        chk.oracle_cases += 1
+        chk.count("oracle:stack:deep:rank%d" % (len(lead) + 2))
+        chk.case(("stack-deep", lead, ny, nx, t, k))
+        pick = [tuple(int(i) for i in numpy.unravel_index(j, lead)) for j in
+                sorted(set([0, 1, nf - 1, nf // 2, min(nf - 1, 255), min(nf - 1, 256), min(nf - 1, 257), min(nf - 1, 1024)] + [rng.randrange(nf) for _ in range(12)]))]
+        for name, fn in (("centre_of_gravity", lambda a: C.centre_of_gravity(a, threshold=t)),
+                         ("centre_of_gravity:nothr", lambda a: C.centre_of_gravity(a)),
+                         ("brightest_pixel", lambda a: C.brightest_pixel(a, f))):
+            base, e = call(fn, st)
+            if base is None or base.shape != (2,) + lead:
+                bad("stack:%s:deep" % name, "%s on a stack of shape %s gives %s instead of a (2,)+%s array" % (name, st.shape, e or base.shape, lead),
+                    fn=name, shape=list(st.shape), threshold=t, fraction=f)
+                continue
+            for idx in pick:
+                one, e = call(fn, st[idx])
+                if not near(one, base[(slice(None),) + idx], kind="stack-deep"):
+                    bad("stack:%s:deep" % name, "%s of a stack of shape %s (frames of brightness 1e-3…1e3), frame %s: %s; the same frame alone: %s (threshold %r, fraction %r)"
+                        % (name, st.shape, idx, base[(slice(None),) + idx].tolist(), e or one.tolist(), t, f), fn=name, frame=list(idx), img=st[idx].tolist(),
+                        shape=list(st.shape), threshold=t, fraction=f, note="stack = integers(0,32)*10**integers(-3,4) per frame; frame listed")
+                    break
+        q = nprng.integers(0, 32, size=lead + (2, 2)).astype(float) * gain[..., None, None]
+        qb, e = call(C.quadCell, q)
+        want = numpy.array([q[..., :, 1].sum(-1) - q[..., :, 0].sum(-1), q[..., 1, :].sum(-1) - q[..., 0, :].sum(-1)])
+        if not near(qb, want, kind="stack-deep"):
+            bad("stack:quadCell:deep", "quadCell on a stack of shape %s is not (right-left, bottom-top) per frame: %s"
+                % (q.shape, e or ("shape %s" % (qb.shape,) if qb.shape != want.shape else "first difference at frame %s"
+                                     % (numpy.argwhere(~numpy.isclose(qb, want, rtol=1e-9, atol=0))[0][1:].tolist(),))), shape=list(q.shape),
+                note="frames = integers(0,32) * 10**integers(-3,4) per frame")
+    # correlation_centroid: many frames, each with its own sky background and brightness
+    for nt in ([40, 300] if quick else [40, 300, 1030]):
+        ny, nx = rng.randint(3, 7), rng.randint(3, 7)
+        pad = rng.choice([1, 2, 3])
+        t = rng.choice([0.0, 0.25, 0.5])
+        st = gen_stack(rng, nprng, (nt,), ny, nx) * (10.0 ** nprng.integers(-2, 3, size=nt))[:, None, None] + nprng.integers(0, 50, size=nt)[:, None, None]
+        g = gen_image(rng, nprng, ny, nx)
+        chk.oracle_cases += 1
+        chk.count("oracle:corr:deep")
+        chk.case(("corr-deep", nt, ny, nx, pad, t))
+        rs, e = call(C.correlation_centroid, st, g, threshold=t, padding=pad)
+        if rs is None or rs.shape != (2, nt):
+            bad("stack:correlation_centroid:deep", "correlation_centroid of %d %dx%d frames gives %s" % (nt, ny, nx, e or rs.shape), nt=nt, shape=[ny, nx], padding=pad, threshold=t)
+            continue
+        for i in sorted(set([0, nt - 1, min(nt - 1, 256)] + [rng.randrange(nt) for _ in range(10)])):
+            one, e1 = call(C.correlation_centroid, st[i], g, threshold=t, padding=pad)
+            if one is None or not near(one.reshape(2), rs[:, i], kind="corr-deep"):
+                bad("stack:correlation_centroid:deep", "correlation_centroid of a stack of %d frames (own background and brightness per frame), frame %d: %s; the frame alone: %s (%dx%d, padding %d, threshold %r)"
+                    % (nt, i, rs[:, i].tolist(), e1 or one.ravel().tolist(), ny, nx, pad, t), im=st[i].tolist(), ref=g.tolist(), frame=i, nt=nt, padding=pad, threshold=t)
+                break
+
+    # ---------------- C. an image is its pixel values: further array dtypes, pixel values up to the dtype's maximum
+    for it in range(60 if quick else 900):
+        ny, nx = rng.randint(2, 12), rng.randint(2, 12)
+        lead = rng.choice([(), (), (2,), (3,), (2, 2)])
+        dt = R5_DTYPES[it % len(R5_DTYPES)]
+        isint = dt in R5_MAX
+        hi = R5_MAX.get(dt, 0)
+        if isint:
+            top = rng.choice([hi, hi, max(2, hi // 3), 31])
+            vals = nprng.integers(0, top, size=lead + (ny, nx), endpoint=True)
+            vals[nprng.random(vals.shape) < 0.3] = 0
+            vals[..., rng.randrange(ny), rng.randrange(nx)] = top
+        else:
+            vals = nprng.uniform(0, 1, size=lead + (ny, nx)) ** 3 * rng.choice([1.0, 1e3, 1e-3])
+            vals[nprng.random(vals.shape) < 0.3] = 0
+            vals[..., rng.randrange(ny), rng.randrange(nx)] = 2.0 * vals.max() + 1e-3
+        arr = vals.astype(dt)
+        ref64 = arr.astype(numpy.float64)                        # the SAME values (every integer here is < 2^53) in binary64
+        if not isint and dt != "longdouble":
+            arr = ref64.astype(dt)
+        tol = R5_TOL32 if dt in ("float32", ">f4") else TOL
+        t = rng.choice(THRESHOLDS + NONDYADIC_THRESHOLDS)
+        f, k = bp_fraction(rng, ny * nx)
+        qv = (nprng.integers(0, hi, size=lead + (2, 2), endpoint=True) if isint else nprng.uniform(0, 1, size=lead + (2, 2)))
+        q = numpy.asarray(qv).astype(dt)
+        q64 = q.astype(numpy.float64)
+        g = gen_image(rng, nprng, ny, nx)
+        pad = rng.choice([1, 2])
+        ci, ci64 = arr.reshape((-1, ny, nx))[:3], ref64.reshape((-1, ny, nx))[:3]
+        if not lead:
+            ci, ci64 = ci[0], ci64[0]
+        jobs = [("centre_of_gravity", arr, ref64, lambda a: C.centre_of_gravity(a, threshold=t)),
+                ("quadCell", q, q64, lambda a: C.quadCell(a))]
+        if bp_defined(ref64, k):
+            jobs.append(("brightest_pixel", arr, ref64, lambda a: C.brightest_pixel(a, f)))
+        if dt not in ("float32", ">f4", "longdouble") and all(fr.min() < fr.max() for fr in ci64.reshape((-1, ny, nx))):
+            jobs.append(("correlation_centroid", ci, ci64, lambda a: C.correlation_centroid(a, g, threshold=0.25 * (it % 2), padding=pad)))
+        chk.oracle_cases += 1
+        chk.count("oracle:dtype-values:" + dt)
+        chk.case(("dtype-values", ny, nx, lead, dt, t, k, it))
+        for name, a_dt, a_64, fn in jobs:
+            base, e0 = call_raw(fn, a_64.copy())
+            r, e = call_raw(fn, a_dt.copy())
+            if base is None or not numpy.all(numpy.isfinite(base)):
+                continue                                                       # undefined centroid (not this clause's subject)
+            if not near(r, base, tol, kind="dtype-values" + (":binary32" if tol != TOL else "")):
+                bad("dtype:%s:%s" % (name, dt), "%s of a %s array of shape %s (values up to %r) = %s, of the same pixel values as float64: %s (threshold %r, fraction %r = %d px, padding %d)"
+                    % (name, dt, a_dt.shape, a_64.max(), e or r.ravel()[:4].tolist(), base.ravel()[:4].tolist(), t, f, k, pad),
+                    fn=name, img=a_64.tolist(), dtype=dt, threshold=t, fraction=f, padding=pad, ref=g.tolist() if name == "correlation_centroid" else None)
+
+    # ---------------- D. thresholds that are no binary fractions; thresholds / paddings as NumPy scalars and 0-d arrays;
+    # positional and keyword spelling; the package-level names
+    spaces = [("aotools", aotools), ("aotools.image_processing", aotools.image_processing)]
+    for it in range(60 if quick else 900):
+        ny, nx = rng.randint(2, 12), rng.randint(2, 12)
+        lead = rng.choice([(), (2,), (3,), (2, 2)])
+        t = rng.choice(NONDYADIC_THRESHOLDS)
+        f, k = bp_fraction(rng, ny * nx)
+        for _ in range(50):
+            st = gen_stack(rng, nprng, lead, ny, nx)
+            if bp_defined(st, k):
+                break
+        else:
+            continue
+        chk.oracle_cases += 1
+        chk.count("oracle:threshold:non-dyadic")
+        chk.case(("threshold-nd", ny, nx, lead, t, k, it))
+        base, e = call(C.centre_of_gravity, st, threshold=t)
+        if base is None or base.shape != (2,) + lead or not numpy.all(numpy.isfinite(base)):
+            bad("stack:centre_of_gravity:thr:nondyadic", "centre_of_gravity(shape %s, threshold=%r) gives %s" % (st.shape, t, e or base.tolist()), img=st.tolist(), threshold=t)
+            continue
+        c = rng.choice(SCALES)
+        sc, e = call(C.centre_of_gravity, c * st, threshold=t)
+        if not near(sc, base, kind="scale-nondyadic"):
+            bad("scale:centre_of_gravity:nondyadic", "centre_of_gravity(%r*img, threshold=%r) = %s differs from centre_of_gravity(img) = %s (shape %s)"
+                % (c, t, e or sc.ravel()[:4].tolist(), base.ravel()[:4].tolist(), st.shape), img=st.tolist(), c=c, threshold=t)
+        for idx in numpy.ndindex(*lead):
+            one, e = call(C.centre_of_gravity, st[idx], threshold=t)
+            if not near(one, base[(slice(None),) + idx], kind="stack-nondyadic"):
+                bad("stack:centre_of_gravity:thr:nondyadic", "centre_of_gravity of a stack (threshold %r), frame %s: %s; the same frame alone: %s"
+                    % (t, idx, base[(slice(None),) + idx].tolist(), e or one.tolist()), img=st.tolist(), frame=list(idx), threshold=t)
+                break
+        # the same number in another spelling is the same threshold (a float32 threshold only when it is exactly representable)
+        t2 = rng.choice(THRESHOLDS[1:]) if it % 2 else t
+        b2, _ = call(C.centre_of_gravity, st, threshold=t2)
+        forms = [("numpy.float64", numpy.float64(t2)), ("0-d array", numpy.array(t2)), ("positional", None)]
+        if float(numpy.float32(t2)) == t2:
+            forms.append(("numpy.float32", numpy.float32(t2)))
+        for fname, tv in forms:
+            r, e = call(C.centre_of_gravity, st, t2) if fname == "positional" else call(C.centre_of_gravity, st, threshold=tv)
+            if not near(r, b2, kind="threshold-form"):
+                bad("argform:centre_of_gravity:threshold:%s" % fname, "centre_of_gravity(img, threshold %s %r) = %s differs from threshold=%r (Python float): %s (shape %s)"
+                    % (fname, t2, e or r.ravel()[:4].tolist(), t2, b2.ravel()[:4].tolist(), st.shape), img=st.tolist(), threshold=t2, form=fname)
+        bb, _ = call(C.brightest_pixel, st, f)
+        for fname, kw in (("keyword", dict(threshold=f)), ("numpy.float64", dict(threshold=numpy.float64(f))), ("0-d array", dict(threshold=numpy.array(f)))):
+            r, e = call(C.brightest_pixel, st, **kw)
+            if bb is not None and not near(r, bb, kind="threshold-form"):
+                bad("argform:brightest_pixel:fraction:%s" % fname, "brightest_pixel(img, threshold=%r as %s) = %s differs from the positional Python float: %s (shape %s)"
+                    % (f, fname, e or r.ravel()[:4].tolist(), bb.ravel()[:4].tolist(), st.shape), img=st.tolist(), fraction=f, form=fname)
+        g = gen_image(rng, nprng, ny, nx)
+        ci = st.reshape((-1, ny, nx))[:3]
+        pad = rng.choice([1, 2, 3])
+        tc = rng.choice([0.0, 0.25, 0.3])
+        bc, _ = call(C.correlation_centroid, ci, g, threshold=tc, padding=pad)
+        for fname, args, kw in (("numpy-int64 padding", (), dict(threshold=tc, padding=numpy.int64(pad))), ("positional", (tc, pad), {}),
+                                ("numpy.float64 threshold", (), dict(threshold=numpy.float64(tc), padding=pad)),
+                                ("numpy-int32 padding", (), dict(threshold=tc, padding=numpy.int32(pad)))):
+            r, e = call(C.correlation_centroid, ci, g, *args, **kw)
+            if bc is not None and not near(r, bc, kind="threshold-form"):
+                bad("argform:correlation_centroid:%s" % fname, "correlation_centroid(im, ref, threshold=%r, padding=%d) written with %s = %s differs from the plain call: %s (%dx%d)"
+                    % (tc, pad, fname, e or r.ravel()[:4].tolist(), bc.ravel()[:4].tolist(), ny, nx), im=ci.tolist(), ref=g.tolist(), threshold=tc, padding=pad, form=fname)
+        if pad == 1:                                                            # the defaults: threshold 0, padding 1
+            b0, _ = call(C.correlation_centroid, ci, g, threshold=0.0, padding=1)
+            r, e = call(C.correlation_centroid, ci, g)
+            if b0 is not None and not near(r, b0):
+                bad("argform:correlation_centroid:defaults", "correlation_centroid(im, ref) = %s differs from threshold=0, padding=1: %s" % (e or r.ravel()[:4].tolist(), b0.ravel()[:4].tolist()),
+                    im=ci.tolist(), ref=g.tolist())
+        # the names exported by the package are the same functions
+        sname, space = spaces[it % 2]
+        q = nprng.integers(0, 32, size=lead + (2, 2)).astype(float)
+        for name, args, kw in (("centre_of_gravity", (st,), dict(threshold=t)), ("brightest_pixel", (st, f), {}), ("quadCell", (q,), {}),
+                               ("correlation_centroid", (ci, g), dict(threshold=tc, padding=pad)), ("cross_correlate", (ci[0], g), dict(padding=pad))):
+            r0, _ = call(getattr(C, name), *args, **kw)
+            r1, e = call(getattr(space, name, None) or (lambda *a, **k: (_ for _ in ()).throw(AttributeError("%s has no attribute %s" % (sname, name)))), *args, **kw)
+            if r0 is not None and not (r1 is not None and same_bits(r0, r1)):
+                bad("alias:%s.%s" % (sname, name), "%s.%s gives %s where aotools.image_processing.centroiders.%s gives %s" % (sname, name, e or r1.ravel()[:4].tolist(), name, r0.ravel()[:4].tolist()),
+                    fn=name, namespace=sname)
+
+    # ---------------- E. read-only arrays (memory-mapped frames) and broadcast, zero-stride stacks (one frame repeated)
+    for it in range(30 if quick else 400):
+        ny, nx = rng.randint(2, 12), rng.randint(2, 12)
+        t = rng.choice(THRESHOLDS)
+        f, k = bp_fraction(rng, ny * nx)
+        dt = rng.choice(DTYPES)
+        for _ in range(50):
+            img = gen_image(rng, nprng, ny, nx)
+            if bp_defined(img, k):
+                break
+        else:
+            continue
+        img = img.astype(dt)
+        nrep = rng.randint(2, 4)
+        qf = nprng.integers(0, 32, size=(2, 2)).astype(dt)
+        g = gen_image(rng, nprng, ny, nx)
+        g.setflags(write=False)
+        pad = rng.choice([1, 2])
+        chk.oracle_cases += 1
+        chk.count("oracle:layout:readonly")
+        chk.case(("readonly", ny, nx, t, k, dt, nrep, it))
+        jobs = [("centre_of_gravity", img, lambda a: C.centre_of_gravity(a, threshold=t)),
+                ("brightest_pixel", img, lambda a: C.brightest_pixel(a, f)),
+                ("quadCell", qf, lambda a: C.quadCell(a))]
+        if dt != "float32" and img.min() < img.max():
+            jobs.append(("correlation_centroid", img, lambda a: C.correlation_centroid(a, g, threshold=t, padding=pad)))
+        for name, one, fn in jobs:
+            base, e = call_raw(fn, one.copy())
+            if base is None or base.size != 2:
+                continue
+            base = base.reshape(2)
+            for lname in ("readonly", "broadcast", "readonly-stack"):
+                if lname == "readonly":
+                    v, lead = one.copy(), ()
+                    v.setflags(write=False)
+                elif lname == "broadcast":
+                    v, lead = numpy.broadcast_to(one, (nrep,) + one.shape), (nrep,)
+                else:
+                    v, lead = numpy.stack([one] * nrep), (nrep,)
+                    v.setflags(write=False)
+                r, e = call_raw(fn, v)
+                want = base.reshape((2,) + (1,) * len(lead)) * numpy.ones((2,) + lead)
+                if r is not None and not lead and r.size == 2:
+                    r = r.reshape(2)                                        # correlation_centroid of one image: shape (2, 1)
+                if not near(r, want, kind="layout-readonly"):
+                    bad("layout:%s:%s" % (name, lname), "%s of a %s %s array of shape %s = %s; of a private writable copy of one frame: %s (threshold %r, fraction %r)"
+                        % (name, lname, dt, v.shape, e or r.ravel()[:4].tolist(), base.tolist(), t, f), fn=name, img=one.tolist(), layout=lname, lead=list(lead), threshold=t, fraction=f, padding=pad, dtype=dt)
+    if worst:
+        chk.notes.append("round-5 sections, largest observed |error|/(1+|expected|) among passing comparisons, per kind: "
+                         + ", ".join("%s %.2g" % kv for kv in sorted(worst.items())))
+
+
 def run(chk):
     quick = chk.tier == "quick"
     chk.rule = ("correspondence: Lean model at binary64 vs centroiders.* — bit-exact for centre_of_gravity (2-D path, and the N-D path "
@@ -655,3 +982,4 @@ def run(chk):
     except common.LeanError as ex:
         chk.broke("correspondence", "driver failed", str(ex))
     oracle(chk, quick)
+    oracle_round5(chk, quick)
